@@ -464,3 +464,104 @@ func baseDecl(ptr any, method string) string {
 	}
 	return s
 }
+
+// grow appends one element (a deep copy of the last one) to every non-empty slice of slices / structs / pointers
+// reachable from ptr and adds one entry (a deep copy of an existing one, under a fresh key) to every non-empty map:
+// a receiver with one more row, polynomial, digit, key ... than the value it was built as. Slices of scalars
+// (coefficient rows, byte strings) keep their length.
+func grow(ptr any) {
+	var walk func(v reflect.Value)
+	walk = func(v reflect.Value) {
+		v = rw(v)
+		switch v.Kind() {
+		case reflect.Ptr, reflect.Interface:
+			if !v.IsNil() && v.Kind() == reflect.Ptr {
+				walk(v.Elem())
+			}
+		case reflect.Struct:
+			for i := 0; i < v.NumField(); i++ {
+				walk(v.Field(i))
+			}
+		case reflect.Array:
+			for i := 0; i < v.Len(); i++ {
+				walk(v.Index(i))
+			}
+		case reflect.Slice:
+			for i := 0; i < v.Len(); i++ {
+				walk(v.Index(i))
+			}
+			switch v.Type().Elem().Kind() {
+			case reflect.Slice, reflect.Struct, reflect.Ptr:
+				if v.Len() > 0 && v.CanSet() {
+					v.Set(reflect.Append(v, deepCopy(v.Index(v.Len()-1))))
+				}
+			}
+		case reflect.Map:
+			if v.Len() == 0 {
+				return
+			}
+			keys := v.MapKeys()
+			sort.Slice(keys, func(i, j int) bool { return fmt.Sprint(keys[i]) < fmt.Sprint(keys[j]) })
+			for _, k := range keys {
+				if e := v.MapIndex(k); e.Kind() == reflect.Ptr && !e.IsNil() {
+					walk(e.Elem())
+				}
+			}
+			last := keys[len(keys)-1]
+			nk := reflect.New(last.Type()).Elem()
+			switch last.Kind() {
+			case reflect.Int, reflect.Int64, reflect.Int32:
+				nk.SetInt(last.Int() + 1000003)
+			case reflect.Uint, reflect.Uint64, reflect.Uint32:
+				nk.SetUint(last.Uint() + 1000003)
+			default:
+				return
+			}
+			v.SetMapIndex(nk, deepCopy(v.MapIndex(last)))
+		}
+	}
+	walk(reflect.ValueOf(ptr).Elem())
+}
+
+// deepCopy of a value (pointers, slices, maps, structs incl. unexported fields followed; everything else shared).
+func deepCopy(v reflect.Value) reflect.Value {
+	out := reflect.New(v.Type()).Elem()
+	var cp func(dst, src reflect.Value)
+	cp = func(dst, src reflect.Value) {
+		dst, src = rw(dst), rw(src)
+		switch src.Kind() {
+		case reflect.Ptr:
+			if !src.IsNil() {
+				dst.Set(reflect.New(src.Type().Elem()))
+				cp(dst.Elem(), src.Elem())
+			}
+		case reflect.Slice:
+			if !src.IsNil() {
+				dst.Set(reflect.MakeSlice(src.Type(), src.Len(), src.Len()))
+				for i := 0; i < src.Len(); i++ {
+					cp(dst.Index(i), src.Index(i))
+				}
+			}
+		case reflect.Array:
+			for i := 0; i < src.Len(); i++ {
+				cp(dst.Index(i), src.Index(i))
+			}
+		case reflect.Struct:
+			for i := 0; i < src.NumField(); i++ {
+				cp(dst.Field(i), src.Field(i))
+			}
+		case reflect.Map:
+			if !src.IsNil() {
+				dst.Set(reflect.MakeMap(src.Type()))
+				it := src.MapRange()
+				for it.Next() {
+					dst.SetMapIndex(it.Key(), deepCopy(it.Value()))
+				}
+			}
+		default:
+			dst.Set(src)
+		}
+	}
+	cp(out, addressable(v))
+	return out
+}
